@@ -151,7 +151,7 @@ func runC01(rep *Report, tier string, seed int64) {
 	rep.Rule = "workload = N concurrent Echo calls in both directions on one healthy link; the message transport delivers pending frames in random / reverse order or holds all responses back until every request was handled; " +
 		"oracle: each call returns the serial+arguments of exactly one invocation on the peer carrying its own arguments. distinct = (codec, api, pattern, N, seed) tuples"
 	rng := rand.New(rand.NewSource(seed))
-	rounds, maxN := 6, 16
+	rounds, maxN := 30, 32
 	if tier == "thorough" {
 		rounds, maxN = 60, 64
 	}
@@ -410,9 +410,9 @@ func runC10(rep *Report, tier string, seed int64) {
 	rep.Rule = "error messages: fixed corner cases (every Unicode blank at either end, quotes, newlines, very long, NUL, zero-width non-blanks) + PRNG strings, restricted to messages with a non-blank character; " +
 		"each sent through a single-error handler, a value+error handler, a nil-error control and a closure, in both directions; oracle: byte-exact message, value alongside, nil stays nil, link alive. distinct = (codec, api, message, shape)"
 	rng := rand.New(rand.NewSource(seed))
-	n := 20
+	n := 100
 	if tier == "thorough" {
-		n = 400
+		n = 1000
 	}
 	msgs := c10Messages(rng, n)
 	for _, api := range apis() {
